@@ -131,6 +131,29 @@ def _top_level_call_index(fn, name: str):
     return None
 
 
+def _protected_callers(lf) -> set:
+    """names of the functions defined in the file whose body, or the body of a file function they call, calls pcall / xpcall"""
+    bodies = {}
+    for n in L.walk(lf.chunk):
+        if n.kind == "localfunction":
+            bodies[n.name] = n.func
+        elif n.kind == "function" and getattr(n, "name", None):
+            bodies.setdefault(n.name, n)
+    direct = {}
+    for name, f in bodies.items():
+        direct[name] = {L.text(c.func) for c in L.calls_in(f) if c.kind == "call"}
+    out = set()
+    changed = True
+    while changed:
+        changed = False
+        for name, calls in direct.items():
+            if name not in out and (calls & {"pcall", "xpcall"} or calls & out):
+                out.add(name)
+                changed = True
+    out.discard("_lua_invoke")
+    return out
+
+
 def rule_r3(ctx) -> RuleResult:
     rr = RuleResult("C07.R3", "the time limit is armed before any module code runs", min_instances=3)
     p2 = ctx.lua.file("_sandbox_phase2.lua")
@@ -147,9 +170,12 @@ def rule_r3(ctx) -> RuleResult:
         rr.ok("_lua_invoke", "_lua_set_timeout(timeout) with the caller's limit", {"line": arm.line})
     else:
         rr.bad(Finding("C07.R3", P2, "_lua_invoke", L.text(arm.call), "the hook is not armed with the invocation's timeout argument", arm.line))
-    pcs = [c for c in L.calls_in(inv) if c.kind == "call" and L.text(c.func) in ("pcall", "xpcall")]
+    # module code is run by pcall/xpcall here, or by a helper function of this file that (transitively) contains such a call
+    runners = _protected_callers(p2)
+    pcs = [c for c in L.calls_in(inv) if c.kind == "call" and (L.text(c.func) in ("pcall", "xpcall") or L.text(c.func) in runners)]
     if len(pcs) < 2:
-        raise AnalysisError("_lua_invoke: fewer than 2 pcall sites (2 confirmed by hand)")
+        raise AnalysisError("_lua_invoke: fewer than 2 sites that run module code (2 confirmed by hand: the module's initialisation chunk, "
+                            "the invoked function)")
     for c in pcs:
         if c.line > arm.line:
             rr.ok("_lua_invoke", "{} after arming".format(L.text(c)), {"call": L.text(c), "line": c.line})
